@@ -204,3 +204,29 @@ func isAwaitableSlice(t types.Type) bool {
 	s, ok := t.Underlying().(*types.Slice)
 	return ok && strings.Contains(types.TypeString(s.Elem(), nil), "gocoro/pkg/promise.Awaitable")
 }
+
+// appendOnly reports whether the slice group is built by append alone: no member is made with a
+// non-zero length and no element is stored by index. Every element then is a value that was appended.
+func appendOnly(fn *ssa.Function, g map[ssa.Value]bool) bool {
+	for v := range g {
+		if ms, ok := v.(*ssa.MakeSlice); ok {
+			c, isConst := ms.Len.(*ssa.Const)
+			if !isConst || c.Int64() != 0 {
+				return false
+			}
+		}
+		if _, ok := v.(*ssa.Parameter); ok {
+			return false
+		}
+	}
+	for _, b := range fn.Blocks {
+		for _, in := range b.Instrs {
+			if st, ok := in.(*ssa.Store); ok {
+				if ia, ok := st.Addr.(*ssa.IndexAddr); ok && g[ia.X] {
+					return false
+				}
+			}
+		}
+	}
+	return true
+}
